@@ -260,6 +260,16 @@ def np_exp(x):
     return _map(x, exp_scalar)
 
 
+@model("numpy.log1p")
+def np_log1p(x):
+    return _map(x, lambda v: log_scalar(S.add(1, v)))
+
+
+@model("numpy.expm1")
+def np_expm1(x):
+    return _map(x, lambda v: S.sub(exp_scalar(v), 1))
+
+
 @model("numpy.sqrt")
 def np_sqrt(x):
     return _map(x, S.sqrt_)
